@@ -18,6 +18,7 @@ import (
 //	    and when the store's tail has moved past the height.
 func c14FailedSet(c *Check) {
 	p := c.P
+	defer c14RoundProgress(c)
 	c.Rule("R14.6", "the failed set is merged into, never replaced, and shrinks only after a successful retry, a header deletion or a tail advance")
 	isFailedMap := func(v ssa.Value) bool {
 		return backSlice(v, SliceOpt{}).HasFieldNamed("checkpoint", "FailedHeaders")
@@ -129,4 +130,97 @@ func c14FailedSet(c *Check) {
 		}
 	}
 	c.Ob("R14.6", "round records failures", rec, p.Pos(pruneCall.Pos()), "on the failure side of Pruner.Prune the failed header's height is inserted into the map handed to updateCheckpoint")
+}
+
+// c14RoundProgress (R14.7): a pruning round terminates. The round's outer loop may go
+// on to another batch only behind a test whose outcome depends on whether this batch
+// made progress (a value that differs between Prune's success and failure edge:
+// the success counter or the last pruned header). The lookup of the next batch
+// starts from the last successfully pruned header, so without such a test a batch
+// that failed completely is fetched and retried again and again within one round.
+func c14RoundProgress(c *Check) {
+	p := c.P
+	c.Rule("R14.7", "a pruning round continues with another batch only behind a test that depends on this batch's progress")
+	round := p.Func("pruner", "Service", "prune")
+	if round == nil {
+		c.Unresolved("R14.7", "Service.prune not found")
+		return
+	}
+	var pruneCall *ssa.Call
+	for _, b := range round.Blocks {
+		for _, ins := range b.Instrs {
+			if g, ok := ins.(*ssa.Call); ok && g.Call.IsInvoke() && g.Call.Method.Name() == "Prune" {
+				pruneCall = g
+			}
+		}
+	}
+	if pruneCall == nil {
+		c.Unresolved("R14.7", "Pruner.Prune call not found in the round")
+		return
+	}
+	// the batch loop (innermost range loop containing the Prune call) and the outer loop header
+	var batchHead, outerHead *ssa.BasicBlock
+	for _, b := range round.Blocks {
+		if (b.Comment == "rangeindex.loop" || b.Comment == "rangeiter.loop") && b.Dominates(pruneCall.Block()) {
+			batchHead = b
+		}
+	}
+	if batchHead == nil {
+		c.Ob("R14.7", "batch loop", false, p.Pos(round.Pos()), "Prune is called in a range loop over the batch")
+		return
+	}
+	// outer loop header: a block that dominates the batch loop and is the target of a back edge from a block the batch loop's exit reaches
+	exit := batchHead.Succs[1]
+	reach := p2pReach(round, exit)
+	for _, b := range round.Blocks {
+		if !b.Dominates(batchHead) || b == batchHead {
+			continue
+		}
+		for _, pr := range b.Preds {
+			if reach[pr] && b.Dominates(pr) {
+				outerHead = b
+			}
+		}
+	}
+	if outerHead == nil {
+		c.Ob("R14.7", "round loop", true, p.Pos(round.Pos()), "the round handles one batch only (no outer loop)")
+		return
+	}
+	okSide, failSide := errEdgesOfCall(round, pruneCall)
+	sides := append(append([]*ssa.BasicBlock{}, okSide...), failSide...)
+	progress := map[*ssa.BasicBlock]bool{}
+	for _, b := range round.Blocks {
+		if !reach[b] {
+			continue
+		}
+		ifi, ok := b.Instrs[len(b.Instrs)-1].(*ssa.If)
+		if !ok {
+			continue
+		}
+		sl := backSlice(ifi.Cond, SliceOpt{PhiControl: true})
+		if sl.Vals[pruneCall] {
+			progress[b] = true
+		}
+		// or a local (captured by a deferred closure, hence an Alloc) that is assigned on one side only of Prune's error test
+		for v := range sl.Vals {
+			al, ok := v.(*ssa.Alloc)
+			if !ok {
+				continue
+			}
+			for _, ref := range *al.Referrers() {
+				st, ok := ref.(*ssa.Store)
+				if !ok || st.Addr != ssa.Value(al) {
+					continue
+				}
+				for _, side := range sides {
+					if side.Dominates(st.Block()) {
+						progress[b] = true
+					}
+				}
+			}
+		}
+	}
+	res := gateWalkOpts(p, round, map[*ssa.BasicBlock]bool{outerHead: true}, nil, exit, progress)
+	c.Ob("R14.7", "next batch only after progress", len(progress) > 0 && !res.Reached, p.Pos(round.Pos()),
+		"from the end of a batch the round's loop header is reachable only across a test that depends on Prune's outcomes in this batch (success counter / last pruned header)", res.Witness...)
 }
